@@ -12,6 +12,9 @@ Read off the CURRENT sources of /repo:
       list_origins_written                                (D11: `origins` of an empty list)
       list_equal_origins                                  (D11b: val_equal distinguishes empty lists by origin names)
       save_alias_current                                  (D12: snapshot copy inserts the current flow into named_flows)
+      float_equal_bits                                    (val_equal compares floats bit for bit: -0.0 is not the default 0.0)
+      nonfinite_substituted                               (inf / NaN are written as +-3.4e38 / 0.0 instead of `null`)
+      function_start_saved                                (Element.function_start_in_output_stream is written as "fnStart")
   * constants INK_SAVE_STATE_VERSION, MIN_COMPATIBLE_LOAD_VERSION, DEFAULT_FLOW_NAME, the flow name
     the old-format branch assigns.
 
@@ -175,6 +178,42 @@ def gen_save():
         _, sb = _body_after(il, "impl InkList", "same_as_for_save")
         if "get_origin_names" not in sb:
             raise GenError("InkList::same_as_for_save does not compare origin names")
+    m = re.search(r"ValueType::Float\(default_val\)\s*=>\s*([^,]*),", ve)
+    if not m:
+        raise GenError("val_equal: Float arm not found")
+    arm = re.sub(r"\s+", "", m.group(1))
+    if arm == "*val==default_val":
+        feq_bits = False
+    elif arm == "val.to_bits()==default_val.to_bits()":
+        feq_bits = True
+    else:
+        raise GenError(f"val_equal: Float arm not recognised: {arm}")
+    _, wr = _body_after(jw, "", "write_rtobject")
+    m = re.search(r"get_value::<f32>\(o\.as_ref\(\)\)\s*\{(.*?)return Ok\(json!\(v\)\);", wr, re.S)
+    if not m:
+        raise GenError("write_rtobject: f32 branch not found")
+    fb = re.sub(r"\s+", "", m.group(1))
+    if fb == "":
+        nonfinite = False
+    elif fb == "letv=ifv.is_nan(){0.0}elseifv==f32::INFINITY{3.4e38}elseifv==f32::NEG_INFINITY{-3.4e38}else{v};":
+        nonfinite = True
+    else:
+        raise GenError(f"write_rtobject: f32 branch not recognised: {fb}")
+    csrc = re.sub(r"//[^\n]*", "", vlib.repo_file("runtime/src/callstack.rs"))
+    _, tw = _body_after(csrc, "impl Thread", "write_json")
+    _, tr = _body_after(csrc, "impl Thread", "from_json")
+    fs_w, fs_r = '"fnStart"' in tw, '"fnStart"' in tr
+    if fs_w != fs_r:
+        raise GenError("Thread::write_json / from_json disagree about the fnStart key")
+    if fs_w:
+        wn, rn = re.sub(r"\s+", "", tw), re.sub(r"\s+", "", tr)
+        if ('ifel.function_start_in_output_stream!=0{el_map.insert("fnStart".to_owned(),json!(el.function_start_in_output_stream),);}'
+                not in wn.replace('json!(el.function_start_in_output_stream));', 'json!(el.function_start_in_output_stream),);')):
+            raise GenError("Thread::write_json: fnStart written in a form the model does not know")
+        if wn.index('"type"') > wn.index('"fnStart"') or wn.index('"fnStart"') > wn.index('"temp"'):
+            raise GenError("Thread::write_json: fnStart must be inserted between type and temp")
+        if 'get("fnStart").and_then(|v|v.as_i64())' not in rn or "fn_startasi32" not in rn:
+            raise GenError("Thread::from_json: fnStart read in a form the model does not know")
     _, cp = _body_after(ss, "impl StoryState", "copy_and_start_patching")
     if "named_flows" not in cp:
         raise GenError("copy_and_start_patching: named_flows handling not found")
@@ -210,12 +249,16 @@ def gen_save():
           f"Definition choice_invisible_read : bool := {b(inv_r)}.",
           f"Definition list_origins_written : bool := {b(org_w)}.",
           f"Definition list_equal_origins : bool := {b(leq)}.",
-          f"Definition save_alias_current : bool := {b(alias)}.", ""]
+          f"Definition save_alias_current : bool := {b(alias)}.",
+          f"Definition float_equal_bits : bool := {b(feq_bits)}.",
+          f"Definition nonfinite_substituted : bool := {b(nonfinite)}.",
+          f"Definition function_start_saved : bool := {b(fs_w)}.", ""]
     changed = write_if_changed("theories/Gen/SaveGen.v", "\n".join(o))
     facts = {"save.sites_on": sorted(i for i in ids if flags[i]),
              "save.sites_off": sorted(i for i in ids if not flags[i]),
              "save.versions": [min_ver, save_ver],
              "save.choice_invisible_written": inv_w, "save.choice_invisible_read": inv_r,
              "save.list_origins_written": org_w, "save.list_equal_origins": leq,
-             "save.alias_current": alias}
+             "save.alias_current": alias, "save.float_equal_bits": feq_bits,
+             "save.nonfinite_substituted": nonfinite, "save.function_start_saved": fs_w}
     return changed, facts
